@@ -493,6 +493,178 @@ func VerifC07_ChildStoreConstraintVeto() {
 	})
 }
 
+// VerifC07_StorageErrorReachesCaller: bbolt refuses keys longer than 32768
+// bytes (a storage error the engine raises on Put). A transaction first
+// creates a valid emp and then creates / updates another one whose unique name
+// or nick (the keys of the unique indexes) has a length around that limit:
+// at the limit the operation is accepted; beyond it the storage error must
+// reach the caller, the whole transaction fails, nothing is stored and no
+// event fires.
+func VerifC07_StorageErrorReachesCaller() {
+	env := verifNewEnv(vStoreCfg{nickNullable: true})
+	defer env.close()
+	mgr := verifNewMgrStore(env.emp, false)
+	log := &vEventLog{}
+	verifRegisterListeners(env.emp, mgr, log)
+	long := func(n int) string {
+		b := make([]byte, n)
+		for i := range b {
+			b[i] = 'k'
+		}
+		return string(b)
+	}
+	field := verifrt.Choose("field", 2)           // 0 name, 1 nick
+	over := verifrt.Choose("over", 2) == 1        // 32768 bytes (largest key) or 32769
+	viaUpdate := verifrt.Choose("update", 2) == 1 // the long value arrives by create or by update
+	n := 32768
+	if over {
+		n++
+	}
+	mk := func(id string) *vEmp {
+		e := &vEmp{Id: id, Name: "N" + id}
+		if field == 0 {
+			e.Name = long(n)
+		} else {
+			v := long(n)
+			e.Nick = &v
+		}
+		return e
+	}
+	if viaUpdate {
+		err := env.update(func(ctx MutateContext) error { return env.emp.Create(ctx, &vEmp{Id: "ab", Name: "Nab"}) })
+		verifrt.Assert(err == nil, "C07 storage-error setup succeeds")
+		log.events = nil
+	}
+	var before []vDumpEntry
+	env.view(func(tx *bbolt.Tx) { before = verifDump(tx) })
+	var opErr error
+	err := env.update(func(ctx MutateContext) error {
+		if err := env.emp.Create(ctx, &vEmp{Id: "a", Name: "Na"}); err != nil {
+			return err
+		}
+		if viaUpdate {
+			opErr = env.emp.Update(ctx, mk("ab"), nil)
+		} else {
+			opErr = env.emp.Create(ctx, mk("ab"))
+		}
+		return opErr
+	})
+	verifrt.Settle()
+	verifrt.Assert((opErr != nil) == over, "C07 a store operation reports the storage error (key too large) iff the key exceeds the engine's limit")
+	verifrt.Assert((err != nil) == over, "C07 the transaction fails iff a storage error occurred in it")
+	env.view(func(tx *bbolt.Tx) {
+		if over {
+			verifrt.Assert(verifDumpEqual(before, verifDump(tx)), "C07 after a storage error the database is as before the transaction")
+			verifrt.Assert(len(log.events) == 0, "C07 a transaction that hit a storage error fires no events")
+		} else {
+			e, found, ferr := env.emp.FindById(tx, "ab")
+			ok := ferr == nil && found
+			if ok && field == 0 {
+				ok = len(e.Name) == n
+			}
+			if ok && field == 1 {
+				ok = e.Nick != nil && len(*e.Nick) == n
+			}
+			verifrt.Assert(ok, "C07 a value of the largest admissible key length is stored")
+		}
+	})
+}
+
+// VerifC07_StorageFaultAtAnyPut: a storage error raised by the engine at any
+// single point of a store operation. The population is fixed (an emp with
+// roles, nick, fk reference, link and ref-counted link; a manager with child
+// data); the transaction performs one valid operation of every kind the stores
+// offer; the k-th Bucket.Put issued inside the transaction fails (k symbolic).
+// If the fault was delivered, the operation and the transaction must report an
+// error, the database must be as before and no event may fire; if the
+// operation needed fewer than k Puts it succeeds.
+func VerifC07_StorageFaultAtAnyPut() {
+	cfg := vStoreCfg{nickNullable: true, fk: vFkIndexNullable, fkToDept: true, links: true}
+	env := verifNewEnv(cfg)
+	defer env.close()
+	mgr := verifNewMgrStore(env.emp, false)
+	log := &vEventLog{}
+	verifRegisterListeners(env.emp, mgr, log)
+	env.createDepts(vDeptIds...)
+	x, xy := vDeptIds[0], vDeptIds[1]
+	nick := "ka"
+	err := env.update(func(ctx MutateContext) error {
+		if err := env.emp.Create(ctx, &vEmp{Id: "a", Name: "Na", Nick: &nick, Roles: []string{"r1"}, Boss: &x}); err != nil {
+			return err
+		}
+		if err := mgr.Create(ctx, &vMgr{vEmp: vEmp{Id: "ab", Name: "Nab", Roles: []string{"r1", "r2"}}, Lead: true}); err != nil {
+			return err
+		}
+		if err := env.emp.depts.AddLinks(ctx.Tx(), "a", x); err != nil {
+			return err
+		}
+		_, err := env.emp.rcDepts.IncrementLinkCount(ctx.Tx(), []byte("a"), []byte(x))
+		return err
+	})
+	verifrt.Assert(err == nil, "C07 storage-fault population setup succeeds")
+	log.events = nil
+	var before []vDumpEntry
+	env.view(func(tx *bbolt.Tx) { before = verifDump(tx) })
+
+	const nOps = 13
+	op := verifrt.Choose("op", nOps)
+	maxK := 14
+	if verifrt.Tier() == 1 {
+		maxK = 30
+	}
+	k := 1 + verifrt.Choose("fault.put", maxK)
+	nick2 := "kb"
+	var opErr error
+	txErr := env.update(func(ctx MutateContext) error {
+		tx := ctx.Tx()
+		verifrt.SetPutFault(k)
+		defer verifrt.DisarmPutFault()
+		switch op {
+		case 0:
+			opErr = env.emp.Create(ctx, &vEmp{Id: "b", Name: "Nb", Nick: &nick2, Roles: []string{"r1", "r2"}, Boss: &xy})
+		case 1:
+			opErr = env.emp.Update(ctx, &vEmp{Id: "a", Name: "Nz", Nick: &nick2, Roles: []string{"r2"}, Boss: &xy}, nil)
+		case 2:
+			opErr = env.emp.DeleteById(ctx, "a")
+		case 3:
+			opErr = mgr.Create(ctx, &vMgr{vEmp: vEmp{Id: "b", Name: "Nb", Roles: []string{"r2"}}, Lead: true})
+		case 4:
+			opErr = mgr.Update(ctx, &vMgr{vEmp: vEmp{Id: "ab", Name: "Nz", Roles: []string{"r1"}}, Lead: false}, nil)
+		case 5:
+			opErr = mgr.DeleteById(ctx, "ab")
+		case 6:
+			opErr = env.emp.depts.AddLinks(tx, "a", xy)
+		case 7:
+			opErr = env.emp.depts.SetLinks(tx, "a", []string{xy})
+		case 8:
+			opErr = env.emp.depts.RemoveLinks(tx, "a", x)
+		case 9:
+			_, opErr = env.emp.rcDepts.IncrementLinkCount(tx, []byte("a"), []byte(x))
+		case 10:
+			_, opErr = env.emp.rcDepts.DecrementLinkCount(tx, []byte("a"), []byte(x))
+		case 11:
+			_, _, opErr = env.emp.rcDepts.SetLinkCount(tx, []byte("a"), []byte(xy), 3)
+		case 12:
+			opErr = env.emp.Update(ctx, &vEmp{Id: "a", Name: "Nz", Roles: []string{"r1", "r2"}}, MapFieldChecker{vFName: struct{}{}, vFRoles: struct{}{}})
+		}
+		return opErr
+	})
+	fired := verifrt.PutFaultFired()
+	verifrt.Settle()
+	opName := []string{"create", "update", "delete", "create through child store", "update through child store", "delete through child store",
+		"AddLinks", "SetLinks", "RemoveLinks", "IncrementLinkCount", "DecrementLinkCount", "SetLinkCount", "field-restricted update"}[op]
+	verifrt.Assert((opErr != nil) == fired, "C07 a store operation reports an error iff the storage engine failed one of its writes: "+opName)
+	verifrt.Assert((txErr != nil) == fired, "C07 the transaction fails iff a storage error occurred in it: "+opName)
+	if fired {
+		env.view(func(tx *bbolt.Tx) {
+			verifrt.Assert(verifDumpEqual(before, verifDump(tx)), "C07 after a storage error the database is as before the transaction")
+		})
+		verifrt.Assert(len(log.events) == 0, "C07 a transaction that hit a storage error fires no events")
+	} else {
+		verifrt.Reach("C07 operation completed before the armed write was reached")
+	}
+}
+
 func VerifC07_UpdateTransaction() {
 	n := 1
 	if verifrt.Tier() == 1 {
